@@ -1,6 +1,25 @@
 import Driver.Proto
 import Model.Fixed
+import Model.FixedFloat
 open Proto Fixed
+
+/-- outcome of a float → int64 conversion: the number, or `impl-defined` outside the domain -/
+def outCv : GoSem.Cv Int → String
+  | .ok v => toString v
+  | .implDefined => "impl-defined"
+
+def f64? (s : String) : Option Flt :=
+  match hexToNat? s with
+  | some n => if n < 2^64 then some (GoSem.F64.decode n) else none
+  | none => none
+
+def f32? (s : String) : Option Flt :=
+  match hexToNat? s with
+  | some n => if n < 2^32 then some (decode32 n) else none
+  | none => none
+
+def outF64 (f : Flt) : String := natToHex f.toBits
+def outF32 (f : Flt) : String := natToHex (encode32 f)
 
 /-- `none` (a Go panic) prints as `panic` -/
 def outOpt : Option Int → String
@@ -35,6 +54,14 @@ def run64 (m : Int) (places : Nat) (op : String) (args : List String) : String :
       | _, _ => "bad-op"
     | "fval", [n, d] => match parseInt? n, parseInt? d with
       | some n, some d => outOpt (F64.fracValue m (wrap64 n) (wrap64 d)) | _, _ => "bad-op"
+    | "fromf64", [x] => match f64? x with
+      | some x => outCv (F64.fromFloat m x) | none => "bad-op"
+    | "fromf32", [x] => match f32? x with
+      | some x => outCv (F64.fromFloat32 m x) | none => "bad-op"
+    | "asf64", [a] => match parseInt? a with
+      | some a => outF64 (F64.asFloat m (wrap64 a)) | none => "bad-op"
+    | "asf32", [a] => match parseInt? a with
+      | some a => outF32 (F64.asFloat32 m (wrap64 a)) | none => "bad-op"
     | _, _ => "bad-op"
 
 def run128 (m : Int) (places : Nat) (op : String) (args : List String) : String :=
@@ -71,6 +98,14 @@ def run128 (m : Int) (places : Nat) (op : String) (args : List String) : String 
       | _, _ => "bad-op"
     | "fval", [n, d] => match parseInt? n, parseInt? d with
       | some n, some d => outOpt (F128.fracValue m (wrap128 n) (wrap128 d)) | _, _ => "bad-op"
+    | "fromf64", [x] => match f64? x with
+      | some x => outOpt (F128.fromFloat m places x) | none => "bad-op"
+    | "fromf32", [x] => match f32? x with
+      | some x => outOpt (F128.fromFloat m places x) | none => "bad-op"
+    | "asf64", [a] => match parseInt? a with
+      | some a => outF64 (F128.asFloat m (wrap128 a)) | none => "bad-op"
+    | "asf32", [a] => match parseInt? a with
+      | some a => outF32 (F128.asFloat32 m (wrap128 a)) | none => "bad-op"
     | _, _ => "bad-op"
 
 def step (_ : Unit) (line : String) : Unit × String :=
